@@ -41,6 +41,7 @@ def registry():
     ok = ('(spec.keys.rsa_public_ok(%s, %s) if len(%s) == 2 else (%s if len(%s) == 6 else (%s > 0 and spec.keys.gcd(%s, %s) == 1 and %s)))'
           % (n_, e_, rc, priv_ok(u_given), rc, q_, p_, q_, priv_ok(u_comp)))
     reg.add(Contract(R + 'construct', params={rc: 'tuple(int,int)|%s|%s|tuple(%s,%s)' % (I5, I6, OINT, OINT), 'consistency_check': ('const', True)},
+                     requires=['all(isinstance(x, int) or isinstance(x, Integer) for x in %s)' % rc],          # documented: a tuple of integers
                      raises={'ValueError': ('iff', 'not %s' % ok)}, result=OKEY,
                      ensures={'n': 'result._n._value == %s' % n_, 'e': 'result._e._value == %s' % e_,
                               'private': 'hasattr(result, "_d") == (len(%s) > 2)' % rc,
@@ -51,10 +52,39 @@ def registry():
     return reg
 
 
+def cascade_registry():
+    """C13: the DER import cascade of RSA.  Leaves are executed against the weak DER abstraction of contracts/pkcs8.py and the PROVED
+    contract of construct (only ValueError); the cascade `_import_keyDER` is then proved from the leaves' contracts: its `except
+    ValueError` is as wide as everything the five decoders can raise and the loop body raises nothing else."""
+    from . import pkcs8
+    from .key_common import install_integer
+    reg = pkcs8.registry()
+    install_integer(reg)
+    pkcs8.install_container_models(reg)
+    add_rsakey_class(reg)
+    full = registry()
+    reg.add(full.contracts[R + 'construct'])
+    VA = 'tuple()|tuple(none)|tuple(bytes)'
+    only_ve = {'ValueError': ('only_if', 'True')}
+    for f in ('_import_pkcs1_private', '_import_pkcs1_public', '_import_subjectPublicKeyInfo', '_import_x509_cert'):
+        reg.add(Contract(R + f, params={'encoded': 'bytes', 'kwargs': VA}, raises=dict(only_ve), result=OKEY, modifies=[],
+                         ensures={'key': 'isinstance(result, RsaKey)'}))
+    reg.add(Contract(R + '_import_pkcs8', params={'encoded': 'bytes', 'passphrase': 'bytes|none'}, raises=dict(only_ve), result=OKEY, modifies=[],
+                     ensures={'key': 'isinstance(result, RsaKey)'}))
+    reg.add(Contract(R + '_import_keyDER', params={'extern_key': 'bytes', 'passphrase': 'bytes|none'}, raises=dict(only_ve), result=OKEY, modifies=[],
+                     ensures={'key': 'isinstance(result, RsaKey)'}))
+    return reg
+
+
+CASCADE = ['_import_pkcs1_private', '_import_pkcs1_public', '_import_subjectPublicKeyInfo', '_import_x509_cert', '_import_pkcs8', '_import_keyDER']
+
+
 def units(prop, tier):
     from vf.pyunit import pyvc_unit
     if prop == 'C08':
         return [pyvc_unit(prop, 'key.rsa.eq', registry, [KEY + '.__eq__'])]
     if prop == 'C05':
         return [pyvc_unit(prop, 'key.rsa.construct', registry, [R + 'construct'])]
+    if prop == 'C13':
+        return [pyvc_unit(prop, 'key.rsa.import_der', cascade_registry, [R + f for f in CASCADE])]
     return []
